@@ -131,7 +131,18 @@ func c19Rules(p *core.Prog, r *core.Run) {
 		})
 		r.Check("C19.HOST", fmt.Sprintf("transportResolver.host#%d", nHost), ok && early, p.InstrPos(st), "the name the TLS layer will verify is the host of the request URL (%v), read before the pool key replaces URL.Host (%v): %s", ok, early, short(v))
 	}
-	r.Check("C19.HOST", "transportResolver.host:stores", nHost == 2, p.Pos(rt.Pos()), "both round-trip branches set transportResolver.host (found %d)", nHost)
+	// every resolver object created gets its host
+	nObj := 0
+	for _, l := range lits {
+		for _, b := range l.Blocks {
+			for _, in := range b.Instrs {
+				if al, ok := in.(*ssa.Alloc); ok && strings.HasSuffix(deref2(al.Type()).String(), "ech.transportResolver") {
+					nObj++
+				}
+			}
+		}
+	}
+	r.Check("C19.HOST", "transportResolver.host:stores", nHost >= 1 && nHost == nObj, p.Pos(rt.Pos()), "every transportResolver created for a round trip has its host set (%d objects, %d stores)", nObj, nHost)
 
 	// --- AUTH
 	nAuth := 0
@@ -163,7 +174,45 @@ func c19Rules(p *core.Prog, r *core.Run) {
 		v := p.X(urlHostStore.Val)
 		ok := v.Op == "call" && v.Name == "fmt.Sprintf"
 		var hasPort, hasScheme, hasHost bool
-		if ok {
+		if v.Op == "bin" && v.Name == "+" {
+			// the same key built by concatenation: the three parts, each next to a
+			// non-empty constant on both sides
+			var parts []*core.Expr
+			var flat func(e *core.Expr)
+			flat = func(e *core.Expr) {
+				if e.Op == "bin" && e.Name == "+" {
+					flat(e.Args[0])
+					flat(e.Args[1])
+					return
+				}
+				parts = append(parts, e)
+			}
+			flat(v)
+			nVar := 0
+			sep := true
+			for i, a := range parts {
+				if a.Op == "const" {
+					continue
+				}
+				nVar++
+				if i == 0 || i == len(parts)-1 || parts[i-1].Op != "const" || len(parts[i-1].Name) <= 2 || parts[i+1].Op != "const" || len(parts[i+1].Name) <= 2 {
+					sep = false
+				}
+				for _, alt := range a.Alts() {
+					switch {
+					case alt.Op == "ext" && alt.Name == "#1" && alt.Args[0].Name == "net.SplitHostPort":
+						hasPort = true
+					case alt.Op == "call" && alt.Name == "(*net/url.URL).Port":
+						hasPort = true
+					case alt.Op == "field" && alt.Name == "Scheme":
+						hasScheme = true
+					case hostPart(alt):
+						hasHost = true
+					}
+				}
+			}
+			ok = sep && nVar == 3
+		} else if ok {
 			c := urlHostStore.Val.(*ssa.Call)
 			args := variadicArgs(p, c.Call.Args[1])
 			for _, a := range args {
@@ -294,52 +343,102 @@ func c19H3(p *core.Prog, r *core.Run, rt *ssa.Function) {
 		r.Check("C19.H3", "scan-loop", false, p.Pos(rt.Pos()), "no scan over the HTTPS records to choose the protocol")
 		return
 	}
-	h3set := core.HasFact(p.Facts(hdr), "!=", `p0\.HTTP3Transport`, "nil")
-	r.Check("C19.H3", "scan:needs-h3-transport", h3set, p.InstrPos(hdr.Instrs[0]), "HTTP/3 is considered only when an HTTP/3 round-tripper is configured")
-	// back edges
+	// ways round the loop: the back edges, or - when they first meet in a block
+	// that only advances the counter - the edges into that block
+	type way struct {
+		from *ssa.BasicBlock
+		fs   []core.Fact
+	}
+	var ways []way
 	for b := range body {
 		for _, s := range b.Succs {
 			if s != hdr {
 				continue
 			}
-			fs := p.EdgeFacts(b, s)
-			alias := false
-			var noH3, ndalpn, noH2, noH11 bool
-			for _, f := range fs {
-				if f.Op == "==" && f.R != nil && f.R.Name == "0" && f.L.Op == "field" && f.L.Name == "Priority" {
-					alias = true
-				}
-				if f.Op == "false" && isContains(f.L, "h3") {
-					noH3 = true
-				}
-				if f.Op == "false" && isContains(f.L, "h2") {
-					noH2 = true
-				}
-				if f.Op == "false" && isContains(f.L, "http/1.1") {
-					noH11 = true
-				}
-				if f.Op == "true" && f.L.Op == "field" && f.L.Name == "NoDefaultALPN" {
-					ndalpn = true
+			latch := len(b.Preds) >= 2 && len(b.Succs) == 1
+			for _, in := range b.Instrs {
+				switch in.(type) {
+				case *ssa.BinOp, *ssa.Phi, *ssa.Jump:
+				default:
+					latch = false
 				}
 			}
-			ok := alias || (noH3 && ndalpn && noH2 && noH11)
-			r.Check("C19.H3", fmt.Sprintf("scan:continue b%d", b.Index), ok, p.InstrPos(b.Instrs[len(b.Instrs)-1]),
-				"the scan moves on to a less-preferred record only past an alias record (%v) or a record usable by neither protocol (no h3: %v, no-default-alpn: %v, no h2: %v, no http/1.1: %v); a usable TCP record must stop the scan so that a less-preferred h3 record cannot win", alias, noH3, ndalpn, noH2, noH11)
+			if !latch {
+				ways = append(ways, way{b, p.EdgeFacts(b, s)})
+				continue
+			}
+			for _, pr := range b.Preds {
+				ways = append(ways, way{pr, p.EdgeFacts(pr, b)})
+			}
 		}
 	}
-	// useH3: the φ after the loop
+	for _, w := range ways {
+		alias := false
+		var noH3, ndalpn, noH2, noH11 bool
+		for _, f := range w.fs {
+			if f.Op == "==" && f.R != nil && f.R.Name == "0" && f.L.Op == "field" && f.L.Name == "Priority" {
+				alias = true
+			}
+			if f.Op == "false" && isContains(f.L, "h3") {
+				noH3 = true
+			}
+			if f.Op == "false" && isContains(f.L, "h2") {
+				noH2 = true
+			}
+			if f.Op == "false" && isContains(f.L, "http/1.1") {
+				noH11 = true
+			}
+			if f.Op == "true" && f.L.Op == "field" && f.L.Name == "NoDefaultALPN" {
+				ndalpn = true
+			}
+		}
+		ok := alias || (noH3 && ndalpn && noH2 && noH11)
+		r.Check("C19.H3", fmt.Sprintf("scan:continue b%d", w.from.Index), ok, p.InstrPos(w.from.Instrs[len(w.from.Instrs)-1]),
+			"the scan moves on to a less-preferred record only past an alias record (%v) or a record usable by neither protocol (no h3: %v, no-default-alpn: %v, no h2: %v, no http/1.1: %v); a usable TCP record must stop the scan so that a less-preferred h3 record cannot win", alias, noH3, ndalpn, noH2, noH11)
+	}
+
+	// the decision: a boolean whose value is, through φ-nodes, a constant on
+	// every way it is reached, and which some If tests
+	type leaf struct {
+		val bool
+		fs  []core.Fact
+	}
+	var leavesOf func(v ssa.Value, fs []core.Fact, depth int) ([]leaf, bool)
+	leavesOf = func(v ssa.Value, fs []core.Fact, depth int) ([]leaf, bool) {
+		switch x := v.(type) {
+		case *ssa.Const:
+			if x.Value != nil && (x.Value.ExactString() == "true" || x.Value.ExactString() == "false") {
+				return []leaf{{x.Value.ExactString() == "true", fs}}, true
+			}
+		case *ssa.Phi:
+			if depth > 4 {
+				return nil, false
+			}
+			var out []leaf
+			for i, e := range x.Edges {
+				l, ok := leavesOf(e, append(append([]core.Fact{}, fs...), p.EdgeFacts(x.Block().Preds[i], x.Block())...), depth+1)
+				if !ok {
+					return nil, false
+				}
+				out = append(out, l...)
+			}
+			return out, true
+		}
+		return nil, false
+	}
 	var useH3 *ssa.Phi
+	var leaves []leaf
 	for _, b := range rt.Blocks {
 		if iff, ok := b.Instrs[len(b.Instrs)-1].(*ssa.If); ok {
 			if ph, ok := iff.Cond.(*ssa.Phi); ok && len(ph.Edges) >= 2 {
-				allBool := true
-				for _, e := range ph.Edges {
-					if c, ok := e.(*ssa.Const); !ok || c.Value == nil || (c.Value.ExactString() != "true" && c.Value.ExactString() != "false") {
-						allBool = false
+				if l, ok := leavesOf(ph, nil, 0); ok {
+					hasTrue := false
+					for _, x := range l {
+						hasTrue = hasTrue || x.val
 					}
-				}
-				if allBool && (ph.Block() == b) {
-					useH3 = ph
+					if hasTrue {
+						useH3, leaves = ph, l
+					}
 				}
 			}
 		}
@@ -348,77 +447,221 @@ func c19H3(p *core.Prog, r *core.Run, rt *ssa.Function) {
 		r.Check("C19.H3", "useH3", false, p.Pos(rt.Pos()), "no protocol decision found after the scan")
 		return
 	}
-	for i, e := range useH3.Edges {
-		c := e.(*ssa.Const)
-		if c.Value.ExactString() != "true" {
+	nTrue := 0
+	for _, l := range leaves {
+		if !l.val {
 			continue
 		}
-		fs := p.EdgeFacts(useH3.Block().Preds[i], useH3.Block())
+		nTrue++
 		var tr, svc, h3 bool
-		for _, f := range fs {
-			if f.Op == "!=" && f.R.Name == "nil" && f.L.Op == "field" && f.L.Name == "HTTP3Transport" {
+		for _, f := range l.fs {
+			if f.Op == "!=" && f.R != nil && f.R.Name == "nil" && f.L.Op == "field" && f.L.Name == "HTTP3Transport" {
 				tr = true
 			}
-			if f.Op == "!=" && f.R.Name == "0" && f.L.Op == "field" && f.L.Name == "Priority" {
+			if f.Op == "!=" && f.R != nil && f.R.Name == "0" && f.L.Op == "field" && f.L.Name == "Priority" {
 				svc = true
 			}
 			if f.Op == "true" && isContains(f.L, "h3") {
 				h3 = true
 			}
 		}
-		r.Check("C19.H3", "useH3:true-edge", tr && svc && h3, p.InstrPos(useH3), "HTTP/3 is chosen only with an HTTP/3 round-tripper (%v), on a service-mode record (%v) whose ALPN lists h3 (%v)", tr, svc, h3)
+		r.Check("C19.H3", fmt.Sprintf("useH3:true-edge#%d", nTrue), tr && svc && h3, p.InstrPos(useH3), "HTTP/3 is chosen only with an HTTP/3 round-tripper (%v), on a service-mode record (%v) whose ALPN lists h3 (%v)", tr, svc, h3)
 	}
-	// branches
-	type branch struct {
-		rtName string
-		keys   []string
-		must   string
-	}
-	want := map[bool]branch{true: {"(net/http.RoundTripper).RoundTrip", []string{`"h3"`}, "true"}, false: {"(*net/http.Transport).RoundTrip", []string{`"h2"`, `"http/1.1"`}, "false"}}
-	iff := useH3.Block().Instrs[len(useH3.Block().Instrs)-1].(*ssa.If)
-	for pol, w := range want {
-		blk := iff.Block().Succs[0]
-		if !pol {
-			blk = iff.Block().Succs[1]
+	decided := func(fs []core.Fact) (pol, ok bool) {
+		for _, f := range fs {
+			if (f.Op == "true" || f.Op == "false") && f.L.Val == ssa.Value(useH3) {
+				return f.Op == "true", true
+			}
 		}
-		var keys []string
-		var must, rtName string
-		var filtered, passed bool
-		for _, in := range blk.Instrs {
-			switch x := in.(type) {
-			case *ssa.MapUpdate:
-				keys = append(keys, p.X(x.Key).Name)
-			case *ssa.Call:
-				e := p.X(x)
-				if e.Fn != nil && e.Fn.Parent() == rt && len(e.Args) == 2 {
-					must = e.Args[1].Name
-					filtered = true
+		return false, false
+	}
+
+	// the dispatch: every RoundTrip call on a round-tripper, with the resolver
+	// object it is given; when one call serves both protocols the round-tripper
+	// and the filtered result are selected together beforehand (φ-nodes of one block)
+	strip := func(v ssa.Value) ssa.Value {
+		for {
+			switch x := v.(type) {
+			case *ssa.MakeInterface:
+				v = x.X
+			case *ssa.ChangeInterface:
+				v = x.X
+			case *ssa.ChangeType:
+				v = x.X
+			default:
+				return v
+			}
+		}
+	}
+	// filter parameters of a filtered result value: the keys of the ALPN set and
+	// the must-have flag the DeleteFunc predicate was created with
+	filterOf := func(res ssa.Value) (keys []string, must string, ok bool) {
+		ld, isLoad := strip(res).(*ssa.UnOp)
+		var cell *ssa.Alloc
+		if isLoad {
+			cell, _ = ld.X.(*ssa.Alloc)
+		}
+		if cell == nil {
+			// the anchored form: a call of the filter literal with (set, flag)
+			if c, isCall := strip(res).(*ssa.Call); isCall {
+				e := p.X(c)
+				if e.Fn != nil && core.Root(e.Fn) == rt && len(c.Call.Args) == 2 && len(callSites(p, core.Closures(e.Fn), `slices\.DeleteFunc`)) == 1 {
+					if m, isMap := strip(c.Call.Args[0]).(*ssa.MakeMap); isMap {
+						for _, ref := range *m.Referrers() {
+							if mu, ok := ref.(*ssa.MapUpdate); ok {
+								keys = append(keys, p.X(mu.Key).Name)
+							}
+						}
+					}
+					sort.Strings(keys)
+					return keys, p.X(c.Call.Args[1]).Name, true
 				}
-				if strings.HasSuffix(e.Name, ".RoundTrip") {
-					rtName = e.Name
+			}
+			return nil, "", false
+		}
+		for _, ref := range *cell.Referrers() {
+			fa, isFA := ref.(*ssa.FieldAddr)
+			if !isFA || p.X(fa).Name != "HTTPS" {
+				continue
+			}
+			for _, r2 := range *fa.Referrers() {
+				st, isSt := r2.(*ssa.Store)
+				if !isSt || !core.Before(st, ld) {
+					continue
 				}
-			case *ssa.Store:
-				a := p.X(x.Addr)
-				if a.Op == "field" && a.Name == "result" {
-					v := p.X(x.Val)
-					passed = v.Op == "call" && v.Fn != nil && v.Fn.Parent() == rt
+				d, isCall := st.Val.(*ssa.Call)
+				if !isCall || p.X(d).Name != "slices.DeleteFunc" {
+					continue
+				}
+				mc, isMC := strip(d.Call.Args[1]).(*ssa.MakeClosure)
+				if !isMC {
+					continue
+				}
+				for _, bnd := range mc.Bindings {
+					al, isAl := bnd.(*ssa.Alloc)
+					if !isAl {
+						continue
+					}
+					stores, _ := p.CellDefs(al)
+					for _, cs := range stores {
+						switch v := strip(cs.Val).(type) {
+						case *ssa.Const:
+							if v.Value != nil && (v.Value.ExactString() == "true" || v.Value.ExactString() == "false") {
+								must = v.Value.ExactString()
+							}
+						case *ssa.MakeMap:
+							for _, ref := range *v.Referrers() {
+								if mu, ok := ref.(*ssa.MapUpdate); ok {
+									keys = append(keys, p.X(mu.Key).Name)
+								}
+							}
+						}
+					}
+				}
+				sort.Strings(keys)
+				return keys, must, true
+			}
+		}
+		return nil, "", false
+	}
+	type want struct {
+		transport string
+		keys      string
+		must      string
+	}
+	wants := map[bool]want{true: {"HTTP3Transport", `"h3"`, "true"}, false: {"HTTPTransport", `"h2","http/1.1"`, "false"}}
+	seenPol := map[bool]bool{}
+	nDispatch := 0
+	for _, s := range allCalls(p, []*ssa.Function{rt}) {
+		if !strings.HasSuffix(s.X.Name, ".RoundTrip") || len(s.X.Args) != 2 {
+			continue
+		}
+		nDispatch++
+		call := s.Instr.Common()
+		var recv ssa.Value
+		if call.IsInvoke() {
+			recv = call.Value
+		} else {
+			recv = call.Args[0]
+		}
+		// the resolver object given to this call
+		var resolver *ssa.Alloc
+		s.X.Args[len(s.X.Args)-1].Walk(func(e *core.Expr) bool {
+			if al, ok := e.Val.(*ssa.Alloc); ok && e.Op == "new" && strings.HasSuffix(e.Name, "transportResolver") {
+				resolver = al
+			}
+			return true
+		})
+		var resVal ssa.Value
+		if resolver != nil {
+			for _, ref := range *resolver.Referrers() {
+				if fa, ok := ref.(*ssa.FieldAddr); ok && p.X(fa).Name == "result" {
+					for _, r2 := range *fa.Referrers() {
+						if st, ok := r2.(*ssa.Store); ok {
+							resVal = st.Val
+						}
+					}
 				}
 			}
 		}
-		sort.Strings(keys)
-		r.Check("C19.H3", fmt.Sprintf("branch:useH3=%v", pol), filtered && passed && rtName == w.rtName && strings.Join(keys, ",") == strings.Join(w.keys, ",") && must == w.must, p.InstrPos(blk.Instrs[0]),
-			"useH3=%v: round-tripper %s gets a result filtered with ALPN set %v, must-have=%s (expected %s, %v, %s)", pol, rtName, keys, must, w.rtName, w.keys, w.must)
-	}
-	// the filter literal
-	var filt *ssa.Function
-	for _, s := range callSites(p, core.Closures(rt), `slices\.DeleteFunc`) {
-		if cl := s.X.Args[1]; cl.Op == "closure" {
-			filt = cl.Fn
+		key := fmt.Sprintf("dispatch#%d", nDispatch)
+		if resVal == nil {
+			r.Check("C19.H3", key, false, p.InstrPos(s.Instr), "cannot find the resolution result handed to this round trip through the request context")
+			continue
+		}
+		type dcase struct {
+			recv, res ssa.Value
+			fs        []core.Fact
+		}
+		var cases []dcase
+		rph, isRP := strip(recv).(*ssa.Phi)
+		vph, isVP := strip(resVal).(*ssa.Phi)
+		if isRP && isVP && rph.Block() == vph.Block() {
+			for i := range rph.Edges {
+				cases = append(cases, dcase{rph.Edges[i], vph.Edges[i], append(p.Facts(s.Block()), p.EdgeFacts(rph.Block().Preds[i], rph.Block())...)})
+			}
+		} else {
+			cases = append(cases, dcase{recv, resVal, p.Facts(s.Block())})
+		}
+		for ci, c := range cases {
+			pol, okPol := decided(c.fs)
+			tr := p.X(strip(c.recv))
+			trName := ""
+			if tr.Op == "field" && tr.Args[0].Op == "param" && tr.Args[0].Name == "p0" {
+				trName = tr.Name
+			}
+			keys, must, okF := filterOf(c.res)
+			w := wants[pol]
+			if okPol {
+				seenPol[pol] = true
+			}
+			r.Check("C19.H3", fmt.Sprintf("%s:case#%d", key, ci), okPol && okF && trName == w.transport && strings.Join(keys, ",") == w.keys && must == w.must, p.InstrPos(s.Instr),
+				"with useH3=%v (decided here: %v) the request goes to %s with a result filtered (%v) with ALPN set [%s], must-have=%s (expected %s, [%s], %s)", pol, okPol, trName, okF, strings.Join(keys, ","), must, w.transport, w.keys, w.must)
 		}
 	}
-	if filt == nil {
-		r.Check("C19.H3", "filter", false, p.Pos(rt.Pos()), "no DeleteFunc filter over the records")
+	r.Check("C19.H3", "dispatch:both", seenPol[true] && seenPol[false], p.Pos(rt.Pos()), "both protocol branches dispatch a round trip (%d RoundTrip call sites)", nDispatch)
+
+	// the filter predicate: the literal(s) given to slices.DeleteFunc
+	filts := map[*ssa.Function]bool{}
+	for _, s := range callSites(p, core.Closures(rt), `slices\.DeleteFunc`) {
+		if cl := s.X.Args[1]; (cl.Op == "closure" || cl.Op == "func") && cl.Fn != nil {
+			filts[cl.Fn] = true
+		}
+	}
+	if len(filts) != 1 {
+		r.Check("C19.H3", "filter", false, p.Pos(rt.Pos()), "expected one DeleteFunc predicate over the records, found %d", len(filts))
 		return
+	}
+	var filt *ssa.Function
+	for f := range filts {
+		filt = f
+	}
+	isBoolCell := func(f core.Fact) bool {
+		if f.G.Cond == nil {
+			return false
+		}
+		_, isCell := p.IsCellLoad(f.G.Cond)
+		return isCell && f.G.Cond.Type().String() == "bool"
 	}
 	for i, ret := range core.Returns(filt) {
 		if p.X(ret.Results[0]).Name != "false" {
@@ -432,7 +675,7 @@ func c19H3(p *core.Prog, r *core.Run, rt *ssa.Function) {
 			if f.Op == "!=" && f.R != nil && f.R.Name == "0" && f.L.Op == "field" && f.L.Name == "Priority" {
 				svc = true
 			}
-			if f.Op == "false" && f.L.Op == "param" {
+			if f.Op == "false" && (f.L.Op == "param" || isBoolCell(f)) {
 				notMust = true
 			}
 			if f.Op == "==" && f.R != nil && f.R.Name == "0" && f.L.Op == "call" && f.L.Name == "len" && f.L.Args[0].Op == "field" && f.L.Args[0].Name == "ALPN" {
@@ -446,6 +689,19 @@ func c19H3(p *core.Prog, r *core.Run, rt *ssa.Function) {
 			}
 			if f.Op == "true" && f.L.Op == "lookup" && f.L.Args[1].Op == "index" && f.L.Args[1].Args[0].Op == "field" && f.L.Args[1].Args[0].Name == "ALPN" {
 				wanted = true
+			}
+			// slices.ContainsFunc(hh.ALPN, func(id string) bool { return set[id] })
+			if f.Op == "true" && f.L.Op == "call" && f.L.Name == "slices.ContainsFunc" && len(f.L.Args) == 2 && f.L.Args[0].Op == "field" && f.L.Args[0].Name == "ALPN" && f.L.Args[1].Fn != nil {
+				okPred := len(core.Returns(f.L.Args[1].Fn)) > 0
+				for _, pr := range core.Returns(f.L.Args[1].Fn) {
+					e := p.X(pr.Results[0])
+					if !(e.Op == "lookup" && e.Args[1].Op == "param") {
+						okPred = false
+					}
+				}
+				if okPred {
+					wanted = true
+				}
 			}
 		}
 		c1, c2, c3 = notMust && noALPN, defALPN && want11, wanted
